@@ -21,7 +21,8 @@ ClientsFinished == \A c \in Conns : ci[c] > Len(Prog[c]) /\ cpc[c] = "idle"
 NoBatch == \A h \in Hooks, n \in Incs : batch[h][n] = <<>> /\ hpc[h][n] # "reinsert"
 \* a tick is taken only while no sender has anything to send to an endpoint that would answer (the harness
 \* cannot hold a request across a tick: the client's timeout is shorter)
-TickSafe == /\ NoBatch
+NoWriteInProgress == \A c \in Conns : cpc[c] = "idle"
+TickSafe == /\ NoBatch /\ NoWriteInProgress       \* (for the harness a write happens at one instant)
             /\ \A h \in Hooks : Mine(h) = {} \/ \A i \in 1..Len(HookEps[h]) : ep[HookEps[h][i]] = "refuse"
 \* the state in which a redefined hook is stuck (D14): its endpoints are up, messages wait in the queue, the new
 \* manager waits for a signal and the old one has left
@@ -63,7 +64,6 @@ ProbeNext == \/ SysNext
              \/ \E h \in Hooks : Replace(h) /\ hpc[h][inc[h]] = "send" /\ batch[h][inc[h]] # <<>>
 ProbeSpec == SimInit /\ [][ProbeNext /\ UNCHANGED fin]_simvars
 ProbeView == <<View, fin>>
-NoWriteInProgress == \A c \in Conns : cpc[c] = "idle"
 AnomalyProbe == (NoWriteInProgress /\ NoBatch /\ ((\E h \in Hooks : Stuck(h)) \/ ~HookInOrderNoDup))
                 => PrintT(<<"TR", ToJson(Snapshot)>>)
 =============================================================================
